@@ -44,6 +44,7 @@ import (
 	"k8s.io/apimachinery/pkg/types"
 	k8sfeature "k8s.io/apiserver/pkg/util/feature"
 	"k8s.io/component-base/featuregate"
+	apiresource "k8s.io/component-helpers/resource"
 	"k8s.io/klog/v2"
 
 	"github.com/koordinator-sh/koordinator/apis/extension"
@@ -101,6 +102,11 @@ type c19Group struct {
 	name, parent string
 	isParent     bool
 	ext          bool
+	noMem        bool
+	smallMax     bool
+	min          int64
+	weight       int
+	noLent       bool
 }
 
 func (g *c19Group) object() *schedv1alpha1.ElasticQuota {
@@ -108,12 +114,27 @@ func (g *c19Group) object() *schedv1alpha1.ElasticQuota {
 	if g.ext {
 		huge[c19Ext] = *resource.NewQuantity(1<<40, resource.DecimalSI)
 	}
+	if g.smallMax {
+		huge[corev1.ResourceCPU] = *resource.NewQuantity(2, resource.DecimalSI)
+	}
+	if g.noMem {
+		delete(huge, corev1.ResourceMemory)
+	}
 	q := &schedv1alpha1.ElasticQuota{
 		ObjectMeta: metav1.ObjectMeta{Name: g.name, Namespace: "ns", ResourceVersion: "1", Labels: map[string]string{extension.LabelQuotaParent: g.parent}, Annotations: map[string]string{}},
 		Spec:       schedv1alpha1.ElasticQuotaSpec{Max: huge, Min: corev1.ResourceList{}},
 	}
+	if g.min > 0 {
+		q.Spec.Min[corev1.ResourceCPU] = *resource.NewQuantity(g.min, resource.DecimalSI)
+	}
 	if g.isParent {
 		q.Labels[extension.LabelQuotaIsParent] = "true"
+	}
+	if g.noLent {
+		q.Labels[extension.LabelAllowLentResource] = "false"
+	}
+	if g.weight > 0 {
+		q.Annotations[extension.AnnotationSharedWeight] = fmt.Sprintf(`{"cpu":%d,"memory":%d}`, g.weight, g.weight*7)
 	}
 	return q
 }
@@ -207,23 +228,35 @@ func TestVerifC19QuotaPluginRestart(t *testing.T) {
 	defer c19PinGates()()
 	ctx := context.TODO()
 	kit.Run(t, kit.Config{Property: "C19", Unit: "quota-plugin-restart", Quick: 3000, Thorough: 60000,
-		Rule: "a quota tree of 3-6 groups (0-2 parents) and 20-60 operations over 4-12 pods issued through the elasticquota Plugin's own handlers (OnQuotaAdd, OnPodAdd/Update/Delete, Reserve, Unreserve); cut after a bind; reserved-but-unbound pods unreserved; a fresh Plugin gets the surviving objects either quotas-first (pods in random order, 20% duplicate adds, 20% no-op updates) or in the late-quota order (the ElasticQuota of some leaf groups among / after the pod adds, pods parked in the default group and moved by the plugin's migrateDefaultQuotaGroupsPod, called deterministically), then watch events; used / non-preemptible used / request per group compared with the live plugin's; distinct = (mode, #groups, depth, #late groups, #pods parked, state mix, event kind); non-trivial = late-quota case in which at least one bound pod was parked in the default group and migrated"},
+		Rule: "a quota tree of 1-8 groups (0-3 nested parents, depth up to 4, min / small max / weight / no-lent / memory not declared, default and system group as targets) and 20-60 operations over 4-12 pods issued through the elasticquota Plugin's own handlers (OnQuotaAdd, OnPodAdd/Update/Delete, Reserve, Unreserve); cut after a bind; reserved-but-unbound pods unreserved; a fresh Plugin gets the surviving objects either quotas-first (pods in random order, 20% duplicate adds, 20% no-op updates) or in the late-quota order (the ElasticQuota of some leaf groups among / after the pod adds, pods parked in the default group and moved by the plugin's migrateDefaultQuotaGroupsPod, called deterministically), then watch events; used / non-preemptible used / request per group compared with the live plugin's; distinct = (mode, #groups, depth, #late groups, #pods parked, state mix, event kind); non-trivial = late-quota case in which at least one bound pod was parked in the default group and migrated"},
 		func(c *kit.Case) {
 			r := c.R
 			scaleMin := r.Bool()
+			maxPods := kit.Pick(r, []int{12, 12, 12, 20})
 			live := c19NewPlugin(scaleMin)
 			// ---- quota tree
 			var groups []*c19Group
-			nparents := r.Range(0, 2)
-			ngroups := r.Range(3, 6)
+			ngroups := kit.Pick(r, []int{1, 2, 3, 3, 4, 4, 5, 6, 6, 8})
+			nparents := c19Min(r.Range(0, 3), ngroups-1)
 			for i := 0; i < ngroups; i++ {
 				g := &c19Group{name: fmt.Sprintf("q%d", i), parent: extension.RootQuotaName, isParent: i < nparents, ext: r.Pct(40)}
 				if i > 0 && nparents > 0 && r.Pct(70) {
-					j := r.Intn(nparents)
-					if j < i {
-						g.parent = groups[j].name
-					}
+					g.parent = groups[r.Intn(c19Min(i, nparents))].name // parents may nest: depth up to 4
 				}
+				if !g.isParent {
+					g.noMem = r.Pct(12)
+					g.smallMax = r.Pct(25)
+				}
+				if r.Pct(25) {
+					g.min = 1
+				}
+				if g.isParent && r.Pct(50) {
+					g.min = 16
+				}
+				if r.Pct(25) {
+					g.weight = r.Range(1, 9)
+				}
+				g.noLent = r.Pct(20)
 				groups = append(groups, g)
 			}
 			byName := map[string]*c19Group{}
@@ -239,13 +272,19 @@ func TestVerifC19QuotaPluginRestart(t *testing.T) {
 					leaves = append(leaves, g.name)
 				}
 			}
-			if r.Pct(25) {
+			if r.Pct(25) || len(leaves) == 0 {
 				leaves = append(leaves, extension.DefaultQuotaName)
+			}
+			if r.Pct(10) {
+				leaves = append(leaves, extension.SystemQuotaName)
 			}
 			declared := func(name string) map[corev1.ResourceName]bool {
 				m := map[corev1.ResourceName]bool{corev1.ResourceCPU: true, corev1.ResourceMemory: true}
 				if g := byName[name]; g == nil || g.ext {
 					m[c19Ext] = true
+				}
+				if g := byName[name]; g != nil && g.noMem {
+					delete(m, corev1.ResourceMemory)
 				}
 				return m
 			}
@@ -277,6 +316,17 @@ func TestVerifC19QuotaPluginRestart(t *testing.T) {
 					ObjectMeta: metav1.ObjectMeta{Namespace: "ns", Name: p.name, UID: types.UID("uid-" + p.name), ResourceVersion: "1", Labels: labels},
 					Spec:       corev1.PodSpec{Containers: []corev1.Container{{Name: "main", Resources: corev1.ResourceRequirements{Requests: p.req.DeepCopy(), Limits: p.req.DeepCopy()}}}},
 				}
+				if r.Pct(20) {
+					side := corev1.ResourceList{corev1.ResourceCPU: *resource.NewMilliQuantity(100, resource.DecimalSI)}
+					p.pending.Spec.Containers = append(p.pending.Spec.Containers, corev1.Container{Name: "side", Resources: corev1.ResourceRequirements{Requests: side}})
+				}
+				if r.Pct(10) {
+					p.pending.Spec.InitContainers = []corev1.Container{{Name: "init", Resources: corev1.ResourceRequirements{Requests: corev1.ResourceList{corev1.ResourceCPU: *resource.NewQuantity(128, resource.DecimalSI)}}}}
+				}
+				if r.Pct(10) {
+					p.pending.Spec.Overhead = corev1.ResourceList{corev1.ResourceCPU: *resource.NewMilliQuantity(50, resource.DecimalSI), corev1.ResourceMemory: *resource.NewQuantity(1<<20, resource.BinarySI)}
+				}
+				p.req = apiresource.PodRequests(p.pending, apiresource.PodResourcesOptions{}) // the Kubernetes rule: containers, init containers, overhead
 				pods = append(pods, p)
 				live.OnPodAdd(p.pending)
 				c.Op("create pod %s in %s req=%s nonPreemptible=%v (OnPodAdd)", p.name, p.group, c19RL(p.req), p.nonPre)
@@ -351,9 +401,24 @@ func TestVerifC19QuotaPluginRestart(t *testing.T) {
 			}
 			nops := r.Range(20, 60)
 			for op := 0; op < nops; op++ {
-				switch r.Weighted(14, 28, 10, 6, 14, 10, 10, 8) {
+				switch r.Weighted(14, 28, 10, 6, 14, 10, 10, 8, 4) {
+				case 8: // the pod's quota label is changed while it runs
+					if p := pick(func(p *c19Pod) bool { return p.state == c19Bound }); p != nil && len(leaves) > 1 {
+						to := kit.Pick(r, leaves)
+						if to == p.group {
+							break
+						}
+						echo(p, len(p.versions))
+						prev := p.latest()
+						next(p, func(nv *corev1.Pod) { nv.Labels[extension.LabelQuotaName] = to })
+						live.OnPodUpdate(prev, p.latest())
+						c.Op("api: relabel %s from %s to %s -> version %d (OnPodUpdate)", p.name, p.group, to, len(p.versions))
+						p.group = to
+						p.echoed = len(p.versions)
+						c.Count("pods_relabelled_to_another_group", 1)
+					}
 				case 0:
-					if len(pods) < 12 {
+					if len(pods) < maxPods {
 						newPod()
 					}
 				case 1:
@@ -382,7 +447,13 @@ func TestVerifC19QuotaPluginRestart(t *testing.T) {
 					}
 				case 5:
 					if p := pick(func(p *c19Pod) bool { return p.state == c19Bound }); p != nil {
-						next(p, func(nv *corev1.Pod) { nv.Labels["touched"] = nv.ResourceVersion })
+						next(p, func(nv *corev1.Pod) {
+							nv.Labels["touched"] = nv.ResourceVersion
+							if r.Pct(12) && nv.DeletionTimestamp == nil {
+								ts := metav1.Unix(1700000000, 0) // terminating; the ignore-terminating gates are off
+								nv.DeletionTimestamp = &ts
+							}
+						})
 						c.Op("api: touch %s -> version %d", p.name, len(p.versions))
 					}
 				case 6:
